@@ -254,7 +254,7 @@ func (g *G) bodyStmts(retInt bool, depth int) []*N {
 		if g.p.JumpW > 0 && g.t.Intn(10) < g.p.JumpW {
 			switch g.t.Pick(3, 2, 1) {
 			case 0:
-				out = append(out, &N{K: KDefer, A: g.anyExpr(depth, "defer/expr"), Guard: g.guard("defer/guard")})
+				out = append(out, &N{K: KDefer, A: g.anyExpr(depth, "defer/expr"), Guard: g.guard("defer/guard"), Bool: g.t.Chance(1, 6)})
 			case 1:
 				gd := g.boolExpr(1, "return/guard")
 				out = append(out, &N{K: KReturn, A: g.retExpr(retInt, depth, "return/value"), Guard: gd})
@@ -293,7 +293,7 @@ func (g *G) bodyStmts(retInt bool, depth int) []*N {
 		}
 	default:
 		if g.p.JumpW > 0 {
-			out = append(out, &N{K: KDefer, A: g.anyExpr(depth, "defer/expr"), Guard: g.guard("defer/guard")})
+			out = append(out, &N{K: KDefer, A: g.anyExpr(depth, "defer/expr"), Guard: g.guard("defer/guard"), Bool: g.t.Chance(1, 6)})
 		} else {
 			out = append(out, &N{K: KExprS, A: &N{K: KNil}})
 		}
@@ -820,7 +820,7 @@ func (g *G) iterLit(depth int) *N {
 		var out []*N
 		for j := 0; j < n; j++ {
 			if g.p.JumpW > 0 && g.t.Chance(1, 3) {
-				out = append(out, &N{K: KDefer, A: g.anyExpr(depth, "defer/expr"), Guard: g.guard("defer/guard")})
+				out = append(out, &N{K: KDefer, A: g.anyExpr(depth, "defer/expr"), Guard: g.guard("defer/guard"), Bool: g.t.Chance(1, 6)})
 			} else {
 				out = append(out, &N{K: KExprS, A: g.anyExpr(depth, "stmt/expr")})
 			}
